@@ -972,6 +972,7 @@ class _StubDec:
     def __init__(self, script):
         self.script = list(script)
         self.consumed = 0   # Worker.decompress compares it before/after a call (stall guard)
+        self.produced = 0   # ... together with the bytes the coders of the chain have put out
 
     def decompress(self, fp, max_length=-1):
         n = self.script.pop(0) if self.script else max_length
